@@ -105,6 +105,24 @@ def check_s2d(ctx, cls):
         ctx.violation(rule, f"{cls.name}|{callee.split('.')[-1][:30]}", l, "LABELS of the data (its index, or its column labels) are matched with integer POSITIONS: for any index other than 0..n-1 (offset range, datetime, period) / any integer column labels other than 0..p-1 the dense output is wrong", found=norm_src(e.node)[:120], expected="positions np.arange(len(index)); the index only as index= of the result")
     if not uses:
         ctx.holds(rule, f"{cls.name}.sparse_to_dense", f.loc(), f"`index` flows only into len() and index= on all {len(paths)} paths")
+    # a fast path for "no detections" (the list of sparse positions is empty): nothing to fill, every row gets label 0.
+    # Such a path is judged on its own (all-zero labels, one per row, on the index handed in) and set aside; the
+    # obligations below are decided on the general path.
+    if cls.name == "ChangeDetector":
+        general = []
+        for p in rets:
+            if _empty_detections(p):
+                v = p.value
+                ctor = [e for e in p.events if e.kind == "pandas_ctor" and e.func is not None and e.func.qualname == f.qualname]
+                ia = ctor[-1].data.get("index") if ctor else None
+                ok0 = isinstance(v, Num) and v.nf is not None and v.nf.as_const() == 0 and v.shape is not None and nf_equal(lift(v.shape[0]), lift(N)) and isinstance(ia, Num) and ia.nf is not None and nf_equal(ia.nf, sym("index"))
+                ctx.check(ok0, "C05.e DENSE-FILL", f"{cls.name}|no-detections", ctor[-1].loc() if ctor else f.loc(), "without changepoints every row gets label 0 (one segment), on the index handed in", found=f"{v!r} index={valkey(ia) if ia is not None else None}"[:140], expected="zeros(len(index)) on index", nontrivial=False)
+            else:
+                general.append(p)
+        if not general:
+            ctx.undecided(rule, f"{cls.name}.sparse_to_dense", f.loc(), "every returning path is the no-detections fast path")
+            return
+        rets = general
     # the frame is built on the index handed in
     for p in rets[:1]:
         ctor = [e for e in p.events if e.kind == "pandas_ctor" and e.func is not None and e.func.qualname == f.qualname]
@@ -172,6 +190,26 @@ def _scatter_cumsum(ctx, f, ex, p, arrs):
     else:
         ctx.holds(rule, "ChangeDetector|all-segments", s.loc(), "every changepoint of the sparse output is scattered (no filter)")
     return True
+
+
+def _empty_detections(p):
+    """a fact of the path says that a list is empty (`len(changepoints) == 0`, `not changepoints`) and the path neither
+    loops nor stores: the fast path for an empty sparse output"""
+    empty = False
+    for c, v in p.facts:
+        t = getattr(c, "t", None)
+        if not t or t[0] != "cmp":
+            continue
+        ats = list(atoms_of(t[2]).values())
+        if len(ats) != 1 or ats[0].kind != "app" or ats[0].args[0] != "listlen":
+            continue
+        L = NF.atom(ats[0])
+        op, nf = t[1], t[2]
+        if (op == "==0" and v and (nf_equal(nf, L) or nf_equal(nf, -L))) or (op == "<0" and v and nf_equal(nf, L - 1)) or (op == "<=0" and v and nf_equal(nf, L)) or (op == "<0" and not v and nf_equal(nf, -L)) or (op == "!=0" and not v and (nf_equal(nf, L) or nf_equal(nf, -L))):
+            empty = True
+    if not empty:
+        return False
+    return not any(e.kind in ("loop_enter", "store", "store_foreign", "store_opaque") for e in p.events)
 
 
 def dense_fill_change(ctx, f, ex, p):
